@@ -3,6 +3,8 @@
 -/
 import PG.Spec.Grammar
 import PG.Lemmas.ListBasics
+import PG.Lemmas.ParserRT
+import PG.Lemmas.ParserRT2
 namespace PG
 open Line
 
@@ -12,26 +14,88 @@ open Line
     non-terminator byte. -/
 theorem C05_line (a : Line) (h : a.WF) (tail : Bytes) (ht : TailOK tail) :
     parseRecord (a.print ++ tail) = (.ok a.toRecord, consumeNewlines tail) := by
-  sorry
+  cases a with
+  | cls orig obf => exact C05_line_cls orig obf h tail ht
+  | field ty name obf => exact C05_line_field ty name obf h tail ht
+  | method range ty fc name args orig obf => exact C05_line_method range ty fc name args orig obf h tail ht
+  | headerKV key value => exact C05_line_headerKV key value h tail ht
+  | headerKey key => exact C05_line_headerKey key h tail ht
+  | sourceFile value => exact C05_line_sourceFile value h tail ht
 
 /-- `ProguardRecord::try_parse` on a single printed line, with or without trailing terminators -/
 theorem C05_try (a : Line) (h : a.WF) (nls : Bytes) (hn : ∀ b ∈ nls, isNewline b = true) :
     tryParse (a.print ++ nls) = .ok a.toRecord := by
-  sorry
+  unfold tryParse
+  rw [C05_line a h nls (tailOK_of_newlines nls hn), consumeNewlines_all nls hn]
+  rfl
+
+/-- the iterator over a sequence of printed lines followed by a remainder `S` at which the
+    iterator may resume -/
+theorem records_lines (ls : List (Line × Bytes))
+    (h : ∀ p ∈ ls, p.1.WF ∧ p.2 ≠ [] ∧ ∀ b ∈ p.2, isNewline b = true)
+    (S : Bytes) (R : List Item) (hS : consumeNewlines S = S)
+    (hR : ∀ k, S.length ≤ k → recordsFuel k S = R) (n : Nat)
+    (hn : ((ls.map (fun p => p.1.print ++ p.2)).flatten ++ S).length ≤ n) :
+    recordsFuel n ((ls.map (fun p => p.1.print ++ p.2)).flatten ++ S) =
+      ls.map (fun p => .ok p.1.toRecord) ++ R := by
+  induction ls generalizing n with
+  | nil => simpa using hR n (by simpa using hn)
+  | cons p ls ih =>
+    obtain ⟨hwf, hne, hnl⟩ := h p (by simp)
+    have hrest : ∀ q ∈ ls, q.1.WF ∧ q.2 ≠ [] ∧ ∀ b ∈ q.2, isNewline b = true :=
+      fun q hq => h q (by simp [hq])
+    obtain ⟨b, r, e, hb⟩ := print_head p.1 hwf
+    simp only [List.map_cons, List.flatten_cons, List.append_assoc] at hn ⊢
+    cases n with
+    | zero => simp [e] at hn
+    | succ m =>
+      have hm : ((ls.map (fun p => p.1.print ++ p.2)).flatten ++ S).length ≤ m := by
+        simp only [e, List.length_append, List.length_cons] at hn ⊢
+        omega
+      have hcn : consumeNewlines ((ls.map (fun p => p.1.print ++ p.2)).flatten ++ S) =
+          (ls.map (fun p => p.1.print ++ p.2)).flatten ++ S := by
+        cases ls with
+        | nil => simpa using hS
+        | cons q ls' =>
+          simp only [List.map_cons, List.flatten_cons, List.append_assoc]
+          exact consumeNewlines_print q.1 (hrest q (by simp)).1 _
+      have hpr := C05_line p.1 hwf (p.2 ++ ((ls.map (fun p => p.1.print ++ p.2)).flatten ++ S))
+        (tailOK_append _ _ hne hnl)
+      rw [consumeNewlines_append _ _ hnl, hcn] at hpr
+      have hne' : (p.1.print ++ (p.2 ++ ((ls.map (fun p => p.1.print ++ p.2)).flatten ++ S))).isEmpty = false := by
+        simp [e]
+      simp only [recordsFuel, hne', hpr, Bool.false_eq_true, if_false]
+      rw [ih hrest m hm]
+      simp
 
 /-- as part of a file: a sequence of printed lines, each followed by at least one terminator
     byte (any mix of CR / LF), parses to exactly the sequence of their records -/
 theorem C05_file (ls : List (Line × Bytes))
     (h : ∀ p ∈ ls, p.1.WF ∧ p.2 ≠ [] ∧ ∀ b ∈ p.2, isNewline b = true) :
     records ((ls.map (fun p => p.1.print ++ p.2)).flatten) = ls.map (fun p => .ok p.1.toRecord) := by
-  sorry
+  have := records_lines ls h [] [] rfl (fun k _ => recordsFuel_nil k)
+    ((ls.map (fun p => p.1.print ++ p.2)).flatten).length (by simp)
+  simpa [records] using this
 
 /-- …and the last line may lack its terminator -/
 theorem C05_file_no_final_newline (ls : List (Line × Bytes)) (last : Line)
     (h : ∀ p ∈ ls, p.1.WF ∧ p.2 ≠ [] ∧ ∀ b ∈ p.2, isNewline b = true) (hl : last.WF) :
     records ((ls.map (fun p => p.1.print ++ p.2)).flatten ++ last.print) =
       ls.map (fun p => .ok p.1.toRecord) ++ [.ok last.toRecord] := by
-  sorry
+  unfold records
+  apply records_lines ls h last.print [.ok last.toRecord]
+  · simpa using consumeNewlines_print last hl []
+  · intro k hk
+    obtain ⟨b, r, e, hb⟩ := print_head last hl
+    have hpr := C05_line last hl [] (Or.inl rfl)
+    simp only [List.append_nil] at hpr
+    cases k with
+    | zero => simp [e] at hk
+    | succ m =>
+      have : last.print.isEmpty = false := by simp [e]
+      simp only [recordsFuel, this, hpr, Bool.false_eq_true, if_false]
+      simp [consumeNewlines, recordsFuel_nil]
+  · exact Nat.le_refl _
 
 /-- the error item produced for a malformed line: the offending line including its first
     terminator byte; parsing resumes right behind it -/
@@ -41,26 +105,138 @@ def errResult (bad tail : Bytes) : Item × Bytes := (.err (bad ++ tail.take 1), 
 theorem C05_err_unspaced_arrow (orig obf tail : Bytes) (ht : TailOK tail)
     (ho : noNl orig ∧ 32 ∉ orig ∧ orig.head? ≠ some 35) (hb : noNl obf ∧ 32 ∉ obf) :
     parseRecord (orig ++ [45, 62] ++ obf ++ [58] ++ tail) = errResult (orig ++ [45, 62] ++ obf ++ [58]) tail := by
-  sorry
+  obtain ⟨hn1, h32, h35⟩ := ho
+  obtain ⟨hn2, h32b⟩ := hb
+  have hbad : ∀ b ∈ orig ++ [45, 62] ++ obf ++ [58], isNewline b = false ∧ (b == 32) = false := by
+    intro b hb
+    simp only [List.mem_append, List.mem_cons, List.not_mem_nil, or_false] at hb
+    rcases hb with ((hb | rfl | rfl) | hb) | rfl
+    · exact ⟨hn1 b hb, beq_false_of_nmem _ _ h32 b hb⟩
+    · decide
+    · decide
+    · exact ⟨hn2 b hb, beq_false_of_nmem _ _ h32b b hb⟩
+    · decide
+  apply parseRecord_class_err _ tail (fun b hb => (hbad b hb).1) ht
+  · have := class_dispatch orig (45 :: 62 :: (obf ++ 58 :: tail)) hn1 h32 h35
+      (fun _ => by simp [consumeNewlines, startsWith, stripPrefix, litIndent, isNewline])
+    simpa using this
+  · unfold parseClass
+    cases hp : parseUntilNoNewline (· == 32) (orig ++ [45, 62] ++ obf ++ [58] ++ tail) with
+    | none => rfl
+    | some x =>
+      have := pUNN_tail _ _ tail (fun b hb => (hbad b hb).1) (fun b hb => (hbad b hb).2) ht.headSat x hp
+      subst this
+      simp [stripPrefix, litArrow]
 
 /-- missing arrow: `orig obf:` -/
 theorem C05_err_missing_arrow (orig obf tail : Bytes) (ht : TailOK tail)
     (ho : noNl orig ∧ 32 ∉ orig ∧ orig.head? ≠ some 35 ∧ orig ≠ []) (hb : noNl obf ∧ 32 ∉ obf) :
     parseRecord (orig ++ [32] ++ obf ++ [58] ++ tail) = errResult (orig ++ [32] ++ obf ++ [58]) tail := by
-  sorry
+  obtain ⟨hn1, h32, h35, hne⟩ := ho
+  obtain ⟨hn2, h32b⟩ := hb
+  have hbad : ∀ b ∈ orig ++ [32] ++ obf ++ [58], isNewline b = false := by
+    intro b hb
+    simp only [List.mem_append, List.mem_cons, List.not_mem_nil, or_false] at hb
+    rcases hb with ((hb | rfl) | hb) | rfl
+    · exact hn1 b hb
+    · decide
+    · exact hn2 b hb
+    · decide
+  have hform : orig ++ [32] ++ obf ++ [58] ++ tail = orig ++ 32 :: (obf ++ 58 :: tail) := by simp
+  apply parseRecord_class_err _ tail hbad ht
+  · rw [hform]
+    exact class_dispatch orig _ hn1 h32 h35 (fun e => absurd e hne)
+  · rw [hform]
+    unfold parseClass
+    cases hp : parseUntilNoNewline (· == 32) (orig ++ 32 :: (obf ++ 58 :: tail)) with
+    | none => rfl
+    | some x =>
+      have hs : stripPrefix litArrow (32 :: (obf ++ 58 :: tail)) = none := by
+        rcases obf with _ | ⟨o0, _ | ⟨o1, _ | ⟨o2, obf⟩⟩⟩ <;>
+          simp [litArrow, stripPrefix] at h32b ⊢
+        intro _ _ h2; exact absurd h2 h32b.2.2.1
+      by_cases hu : validUtf8 orig = true
+      · rw [pUNN_ok _ orig 32 _ hu hn1 (beq_false_of_nmem _ _ h32) (by decide) (by decide)] at hp
+        cases hp
+        simp only [hs]
+      · exfalso
+        unfold parseUntilNoNewline parseUntil at hp
+        rw [spanUntil_append _ orig (32 :: (obf ++ 58 :: tail))
+          (by intro b hb; simp [hn1 b hb, beq_false_of_nmem _ _ h32 b hb])
+          (HeadSat.cons _ _ _ (by decide))] at hp
+        simp [hu] at hp
 
 /-- missing class colon: `orig -> obf` -/
 theorem C05_err_missing_colon (orig obf tail : Bytes) (ht : TailOK tail)
     (ho : noNl orig ∧ 32 ∉ orig ∧ orig.head? ≠ some 35) (hb : noNl obf ∧ 58 ∉ obf) :
     parseRecord (orig ++ litArrow ++ obf ++ tail) = errResult (orig ++ litArrow ++ obf) tail := by
-  sorry
+  obtain ⟨hn1, h32, h35⟩ := ho
+  obtain ⟨hn2, h58⟩ := hb
+  have hbad : ∀ b ∈ orig ++ litArrow ++ obf, isNewline b = false := by
+    intro b hb
+    simp only [litArrow, List.mem_append, List.mem_cons, List.not_mem_nil, or_false] at hb
+    rcases hb with (hb | rfl | rfl | rfl | rfl) | hb
+    · exact hn1 b hb
+    · decide
+    · decide
+    · decide
+    · decide
+    · exact hn2 b hb
+  have hform : orig ++ litArrow ++ obf ++ tail = orig ++ 32 :: 45 :: 62 :: 32 :: (obf ++ tail) := by
+    simp [litArrow]
+  apply parseRecord_class_err _ tail hbad ht
+  · rw [hform]
+    exact class_dispatch orig _ hn1 h32 h35 (fun _ => dispatch_arrow _)
+  · rw [hform]
+    unfold parseClass
+    cases hp : parseUntilNoNewline (· == 32) (orig ++ 32 :: 45 :: 62 :: 32 :: (obf ++ tail)) with
+    | none => rfl
+    | some x =>
+      have := pUNN_delim _ orig 32 _ hn1 (beq_false_of_nmem _ _ h32) (by decide) (by decide) x hp
+      subst this
+      simp only [litArrow, stripPrefix, beq_self_eq_true, if_true]
+      cases hp2 : parseUntilNoNewline (· == 58) (obf ++ tail) with
+      | none => rfl
+      | some y =>
+        have := pUNN_tail _ obf tail hn2 (beq_false_of_nmem _ _ h58) ht.headSat y hp2
+        subst this
+        simp [stripPrefix]
 
 /-- start line without end line: `    5:void x() -> y` -/
 theorem C05_err_start_without_end (s : Nat) (rest tail : Bytes) (ht : TailOK tail)
     (hs : s < usizeBound) (hr : noNl rest ∧ Line.noLeadNum rest) :
     parseRecord (litIndent ++ natToDec s ++ [58] ++ rest ++ tail) =
       errResult (litIndent ++ natToDec s ++ [58] ++ rest) tail := by
-  sorry
+  obtain ⟨hn, hnum⟩ := hr
+  have hbad : ∀ b ∈ litIndent ++ natToDec s ++ [58] ++ rest, isNewline b = false := by
+    intro b hb
+    simp only [litIndent, List.mem_append, List.mem_cons, List.not_mem_nil, or_false] at hb
+    rcases hb with (((rfl | rfl | rfl | rfl) | hb) | rfl) | hb
+    · decide
+    · decide
+    · decide
+    · decide
+    · exact natToDec_noNl s b hb
+    · decide
+    · exact hn b hb
+  have hform : litIndent ++ natToDec s ++ [58] ++ rest ++ tail =
+      32 :: 32 :: 32 :: 32 :: (natToDec s ++ 58 :: (rest ++ tail)) := by
+    simp [litIndent]
+  obtain ⟨d0, d1, d2, d3⟩ := member_dispatch (natToDec s ++ 58 :: (rest ++ tail))
+  apply parseRecord_member_err _ tail hbad ht
+  · rw [hform]; exact ⟨d0, d1, d2⟩
+  · rw [hform]
+    have e1 : parseUsize (natToDec s ++ 58 :: (rest ++ tail)) = some (s, 58 :: (rest ++ tail)) :=
+      parseUsize_natToDec s _ hs (by intro b hb; simp at hb; subst hb; decide)
+    have e2 : parseUsize (rest ++ tail) = none := by
+      apply parseUsize_none
+      intro b hb
+      cases rest with
+      | nil =>
+        simp only [List.nil_append] at hb
+        rcases isNewline_cases b (ht.headSat b hb) with rfl | rfl <;> decide
+      | cons x r => simp at hb; subst hb; exact hnum x rfl
+    simp [parseMember, d3, parseLinePrefix, e1, e2, stripPrefix]
 
 /-- missing return type: `    name(args) -> obf` -/
 theorem C05_err_missing_type (name args obf tail : Bytes) (ht : TailOK tail)
@@ -68,7 +244,46 @@ theorem C05_err_missing_type (name args obf tail : Bytes) (ht : TailOK tail)
     (hb : noNl obf ∧ stripPrefix [45, 62, 32] obf = none) :
     parseRecord (litIndent ++ name ++ [40] ++ args ++ [41] ++ litArrow ++ obf ++ tail) =
       errResult (litIndent ++ name ++ [40] ++ args ++ [41] ++ litArrow ++ obf) tail := by
-  sorry
+  obtain ⟨hn1, h32n, hnum⟩ := hn
+  obtain ⟨hn2, h32a⟩ := ha
+  obtain ⟨hn3, hsp⟩ := hb
+  have hcomp : ∀ b ∈ name ++ 40 :: (args ++ [41]), isNewline b = false ∧ (b == 32) = false := by
+    intro b hb
+    simp only [List.mem_append, List.mem_cons, List.not_mem_nil, or_false] at hb
+    rcases hb with hb | rfl | hb | rfl
+    · exact ⟨hn1 b hb, beq_false_of_nmem _ _ h32n b hb⟩
+    · decide
+    · exact ⟨hn2 b hb, beq_false_of_nmem _ _ h32a b hb⟩
+    · decide
+  have hbad : ∀ b ∈ litIndent ++ name ++ [40] ++ args ++ [41] ++ litArrow ++ obf, isNewline b = false :=
+    all_append (all_append (all_append (all_append (all_append (all_append (by decide) hn1) (by decide)) hn2)
+      (by decide)) (by decide)) hn3
+  have hform : litIndent ++ name ++ [40] ++ args ++ [41] ++ litArrow ++ obf ++ tail =
+      32 :: 32 :: 32 :: 32 :: ((name ++ 40 :: (args ++ [41])) ++ 32 :: ([45, 62] ++ 32 :: (obf ++ tail))) := by
+    simp [litIndent, litArrow]
+  generalize hc : name ++ 40 :: (args ++ [41]) = comp at hcomp hform
+  obtain ⟨d0, d1, d2, d3⟩ := member_dispatch (comp ++ 32 :: ([45, 62] ++ 32 :: (obf ++ tail)))
+  apply parseRecord_member_err _ tail hbad ht
+  · rw [hform]; exact ⟨d0, d1, d2⟩
+  · rw [hform]
+    have e0 : parseLinePrefix (comp ++ 32 :: ([45, 62] ++ 32 :: (obf ++ tail))) =
+        some (none, comp ++ 32 :: ([45, 62] ++ 32 :: (obf ++ tail))) := by
+      apply parseLinePrefix_none
+      subst hc
+      rw [List.append_assoc]
+      exact noLeadNum_append name 40 _ hnum (by decide)
+    have e2 : parseUntilNoNewline (fun c => c == 32 || c == 40) (45 :: 62 :: 32 :: (obf ++ tail)) =
+        some ([45, 62], 32 :: (obf ++ tail)) :=
+      pUNN_ok _ [45, 62] 32 _ (by decide) (by decide) (by decide) (by decide) (by decide)
+    have e3 : stripPrefix [45, 62, 32] (obf ++ tail) = none := stripPrefix_arrowTail obf tail hsp ht.headSat
+    simp only [parseMember, d3, e0]
+    cases hp : parseUntilNoNewline (· == 32) (comp ++ 32 :: ([45, 62] ++ 32 :: (obf ++ tail))) with
+    | none => rfl
+    | some x =>
+      have := pUNN_delim _ comp 32 _ (fun b hb => (hcomp b hb).1) (fun b hb => (hcomp b hb).2)
+        (by decide) (by decide) x hp
+      subst this
+      simp [stripPrefix, e2, litArrow, e3]
 
 /-- indentation other than four spaces (0–3 spaces) in front of a method line with a non-empty
     return type -/
@@ -77,14 +292,75 @@ theorem C05_err_indent (k : Nat) (hk : k < 4) (ty name args obf tail : Bytes) (h
     (hn : noNl name ∧ 32 ∉ name ∧ name.head? ≠ some 45) (ha : noNl args) (hb : noNl obf) :
     parseRecord (List.replicate k 32 ++ ty ++ [32] ++ name ++ [40] ++ args ++ [41] ++ litArrow ++ obf ++ tail) =
       errResult (List.replicate k 32 ++ ty ++ [32] ++ name ++ [40] ++ args ++ [41] ++ litArrow ++ obf) tail := by
-  sorry
+  obtain ⟨hn1, h32, hne, h35, h45⟩ := hty
+  obtain ⟨hn2, h32n, h45n⟩ := hn
+  have hrep : ∀ b ∈ List.replicate k (32 : UInt8), isNewline b = false := by
+    intro b hb; rw [List.eq_of_mem_replicate hb]; decide
+  have hbad : ∀ b ∈ List.replicate k 32 ++ ty ++ [32] ++ name ++ [40] ++ args ++ [41] ++ litArrow ++ obf,
+      isNewline b = false :=
+    all_append (all_append (all_append (all_append (all_append (all_append (all_append (all_append
+      hrep hn1) (by decide)) hn2) (by decide)) ha) (by decide)) (by decide)) hb
+  generalize hR : name ++ 40 :: (args ++ 41 :: 32 :: 45 :: 62 :: 32 :: (obf ++ tail)) = R
+  have hform : List.replicate k 32 ++ ty ++ [32] ++ name ++ [40] ++ args ++ [41] ++ litArrow ++ obf ++ tail =
+      List.replicate k 32 ++ (ty ++ 32 :: R) := by
+    subst hR; simp [litArrow]
+  have hRs : stripPrefix [45, 62, 32] R = none := by
+    subst hR
+    cases name with
+    | nil => simp [stripPrefix]
+    | cons n0 name =>
+      have : n0 ≠ 45 := by rintro rfl; simp at h45n
+      simp [stripPrefix, Ne.symm this]
+  apply parseRecord_class_err _ tail hbad ht
+  · rw [hform]
+    rcases k with _ | _ | _ | _ | k
+    · simpa using class_dispatch ty (32 :: R) hn1 h32 h35 (fun e => absurd e hne)
+    all_goals
+      first
+      | omega
+      | (obtain ⟨t0, ty', rfl⟩ := List.exists_cons_of_ne_nil hne
+         have t1 : t0 ≠ 32 := by rintro rfl; simp at h32
+         simp [List.replicate, consumeNewlines, startsWith, stripPrefix, litIndent, isNewline, Ne.symm t1])
+  · rw [hform]
+    unfold parseClass
+    rcases k with _ | k
+    · simp only [List.replicate, List.nil_append]
+      cases hp : parseUntilNoNewline (· == 32) (ty ++ 32 :: R) with
+      | none => rfl
+      | some x =>
+        have := pUNN_delim _ ty 32 R hn1 (beq_false_of_nmem _ _ h32) (by decide) (by decide) x hp
+        subst this
+        simp [litArrow, stripPrefix, hRs]
+    · have e1 : parseUntilNoNewline (· == 32) (List.replicate (k + 1) 32 ++ (ty ++ 32 :: R)) =
+          some ([], 32 :: (List.replicate k 32 ++ (ty ++ 32 :: R))) :=
+        pUNN_ok _ [] 32 _ (by decide) (by simp) (by simp) (by decide) (by decide)
+      rw [e1]
+      have e2 : stripPrefix litArrow (32 :: (List.replicate k 32 ++ (ty ++ 32 :: R))) = none := by
+        rcases k with _ | k
+        · obtain ⟨t0, ty', rfl⟩ := List.exists_cons_of_ne_nil hne
+          have t1 : t0 ≠ 45 := by rintro rfl; simp at h45
+          simp [litArrow, stripPrefix, Ne.symm t1]
+        · simp [litArrow, stripPrefix, List.replicate]
+      simp only [e2]
 
 /-! ### non-vacuity: the hypotheses are satisfiable by concrete lines of every kind -/
 
 example : (Line.method (some (1016, 1016)) [118, 111, 105, 100] (some [99, 111, 109, 46, 66]) [100, 111] [] (some (16, some 16)) [98]).WF := by
-  sorry
+  refine ⟨str_of_decide _ (by decide), str_of_decide _ (by decide), str_of_decide _ (by decide),
+    str_of_decide _ (by decide), ?_, by decide, ?_, by decide, by decide, by decide, by decide, ?_, ?_⟩
+  · intro c hc; cases hc
+    exact ⟨str_of_decide _ (by decide), by decide, by decide⟩
+  · intro h; cases h
+  · intro s e h; cases h
+    constructor <;> (unfold usizeBound; omega)
+  · intro os oe h; cases h
+    refine ⟨by unfold usizeBound; omega, ?_⟩
+    intro x hx; cases hx
+    unfold usizeBound; omega
 
 example : (Line.cls [97, 46, 66] [97]).WF ∧ (Line.headerKV [107] [118]).WF ∧ (Line.sourceFile [70, 46, 107, 116]).WF := by
-  sorry
+  refine ⟨⟨str_of_decide _ (by decide), str_of_decide _ (by decide), by decide, by decide, by decide⟩,
+    ⟨str_of_decide _ (by decide), str_of_decide _ (by decide), by decide, by decide, by decide⟩,
+    ⟨str_of_decide _ (by decide), by decide⟩⟩
 
 end PG
